@@ -1164,7 +1164,7 @@ func (d *DotGit) readReferenceFrom(rd io.Reader, name string) (ref *plumbing.Ref
 // truncates the file.
 func (d *DotGit) checkReferenceAndTruncate(f billy.File, old *plumbing.Reference) error {
 	if old == nil {
-		return nil
+		return f.Truncate(0)
 	}
 
 	ref, err := d.readReferenceFrom(f, old.Name().String())
